@@ -13,7 +13,7 @@ Lemma C08_negotiated_is_min :
     (c_expected_asn c = 0 \/ c_expected_asn c = asn) ->
     let c' := fst (on_open c asn id hold caps) in
     let outs := snd (on_open c asn id hold caps) in
-    let h := hold_in_force (c_local_hold c) hold in
+    let h := hold_in_force (open_hold (c_local_hold c)) hold in
     c_state c' = OpenConfirm
     /\ c_neg_hold c' = h
     /\ (h <> 0 -> c_ka c' = keepalive_of h /\ In (SetKa (keepalive_of h)) outs /\ In (SetHold h) outs).
@@ -24,14 +24,14 @@ Proof.
   { destruct Hasn as [H|H]; rewrite H; rewrite ?N.eqb_refl; cbn; auto using andb_false_r. }
   rewrite Hg. cbn [fst snd c_state c_neg_hold c_ka]. unfold hold_in_force, keepalive_of.
   split; [reflexivity|]. split; [reflexivity|].
-  intros Hnz. destruct (N.min (c_local_hold c) hold =? 0) eqn:E; [lia|].
+  intros Hnz. destruct (N.min (open_hold (c_local_hold c)) hold =? 0) eqn:E; [lia|].
   split; [reflexivity|]. cbn. auto 8.
 Qed.
 
 Example negotiated_is_min_nonvacuous :
   let c := fst (on_connected (conn_new 65000 200 [] 90 65001)) in
   c_state c = OpenSent /\ (c_expected_asn c = 0 \/ c_expected_asn c = 65001)
-  /\ hold_in_force (c_local_hold c) 30 = 30.
+  /\ hold_in_force (open_hold (c_local_hold c)) 30 = 30.
 Proof. vm_compute. auto. Qed.
 
 (* ------------------------------------------- the driver before the fixes *)
@@ -282,7 +282,7 @@ Proof.
       cbn [fst snd existsb is_down orb] in *; [discriminate Hnd|].
     destruct Hinv as (Hk & Hka & Hh).
     unfold cinv. cbn [c_state c_neg_hold c_ka c_local_hold].
-    destruct (N.min (c_local_hold cn) hold =? 0) eqn:En.
+    destruct (N.min (open_hold (c_local_hold cn)) hold =? 0) eqn:En.
     + destruct (c_local_hold cn =? 0) eqn:El; fold_cbn.
       * apply N.eqb_eq in El. auto.
       * auto.
@@ -396,6 +396,20 @@ Proof.
     exact (cinv_recv (d_now d) g cn (d_hold d) (d_ka d) m (d_role d) (Hc Hl0 cn Hm0) Hd).
 Qed.
 
+Lemma rx_item_inv d g it :
+  dinv d g ->
+  let d' := fst (rx_item cur d it) in
+  dinv d' (last_rx g [snd (rx_item cur d it)]) /\ d_now d' = d_now d /\ d_role d' = d_role d
+  /\ (d_live d' = true -> d_live d = true).
+Proof.
+  intros Hinv. destruct it as [m| |cd sb]; cbn [rx_item c_loop_to_fsm cur].
+  - destruct (feed_recv_inv d g m Hinv) as (H1 & H2 & H3 & _ & H5). auto.
+  - destruct (feed_recv_inv d g MUpdate Hinv) as (H1 & H2 & H3 & _ & H5). auto.
+  - destruct Hinv as [Hg Hc]. unfold quiet. dsimpl. rewrite andb_false_r.
+    split; [|split; [reflexivity|split; [reflexivity|intro Hx; discriminate Hx]]].
+    split; [unfold last_rx; cbn; exact Hg|intro Hx; discriminate Hx].
+Qed.
+
 Lemma rx_loop_inv its : forall d g,
   dinv d g ->
   let d' := fst (rx_loop cur d its) in
@@ -405,16 +419,9 @@ Proof.
   induction its as [|it rest IH]; intros d g Hinv; cbv zeta.
   - cbn [rx_loop fst snd last_rx fold_left]. auto.
   - cbn [rx_loop].
-    assert (Hit : exists m, (match it with
-                             | IMsg m => feed cur d (ARx m) (Recv m)
-                             | ILoop => if c_loop_to_fsm cur then feed cur d (ARx MUpdate) (Recv MUpdate)
-                                        else quiet d ASkipLoop Cont
-                             end) = feed cur d (ARx m) (Recv m)).
-    { destruct it as [m|]; [exists m | exists MUpdate]; reflexivity. }
-    destruct Hit as [m Hit]. rewrite Hit. clear Hit.
-    pose proof (feed_recv_inv d g m Hinv) as H. cbv zeta in H.
-    destruct (feed cur d (ARx m) (Recv m)) as [d1 l]. cbn [fst snd] in H.
-    destruct H as (Hi1 & Hn1 & Hr1 & _ & Hl1).
+    pose proof (rx_item_inv d g it Hinv) as H. cbv zeta in H.
+    destruct (rx_item cur d it) as [d1 l]. cbn [fst snd] in H.
+    destruct H as (Hi1 & Hn1 & Hr1 & Hl1).
     destruct (d_live d1) eqn:Hlive.
     + specialize (IH d1 (last_rx g [l]) Hi1). cbv zeta in IH.
       destruct (rx_loop cur d1 rest) as [d2 ls]. cbn [fst snd] in *.
@@ -423,7 +430,7 @@ Proof.
     + cbn [fst snd]. split; [exact Hi1|]. split; [exact Hn1|]. split; [exact Hr1|]. intro Hx; congruence.
 Qed.
 
-Definition not_rx (a : act) : Prop := match a with ARx _ | ASkipLoop => False | _ => True end.
+Definition not_rx (a : act) : Prop := match a with ARx _ | ASkipLoop | AParseErr => False | _ => True end.
 
 Lemma feed_other_inv d g a i :
   is_connected i = false -> not_rx a ->
@@ -709,7 +716,7 @@ Proof.
   - destruct m as [asn id hold caps| | |code sub|f]; cbn [conn_step].
     + unfold on_open. destruct (negb (st_eqb (c_state cn) OpenSent)); [reflexivity|].
       destruct (negb (c_expected_asn cn =? 0) && negb (c_expected_asn cn =? asn)); [reflexivity|].
-      destruct (N.min (c_local_hold cn) hold =? 0); [destruct (c_local_hold cn =? 0)|]; reflexivity.
+      destruct (N.min (open_hold (c_local_hold cn)) hold =? 0); [destruct (c_local_hold cn =? 0)|]; reflexivity.
     + unfold on_keepalive. destruct (c_state cn); reflexivity.
     + unfold on_update. destruct (st_eqb (c_state cn) Established); reflexivity.
     + reflexivity.
@@ -751,13 +758,10 @@ Qed.
 Lemma rx_loop_no_timer_down its : forall d, existsb timer_down (snd (rx_loop cur d its)) = false.
 Proof.
   induction its as [|it rest IH]; intro d; [reflexivity|]. cbn [rx_loop].
-  assert (Hl : forall x, x = (match it with
-                             | IMsg m => feed cur d (ARx m) (Recv m)
-                             | ILoop => if c_loop_to_fsm cur then feed cur d (ARx MUpdate) (Recv MUpdate)
-                                        else quiet d ASkipLoop Cont
-                             end) -> timer_down (snd x) = false).
-  { intros x Hx. subst x. destruct it; [|cbn [c_loop_to_fsm cur]]; apply feed_no_timer_down; discriminate. }
-  match goal with |- context [match ?x with pair _ _ => _ end] => specialize (Hl x eq_refl); destruct x as [d1 l] end.
+  assert (Hl : timer_down (snd (rx_item cur d it)) = false).
+  { destruct it as [m| |cd sb]; cbn [rx_item c_loop_to_fsm cur];
+      [apply feed_no_timer_down; discriminate | apply feed_no_timer_down; discriminate | reflexivity]. }
+  destruct (rx_item cur d it) as [d1 l].
   cbn [snd] in Hl. destruct (d_live d1).
   - specialize (IH d1). destruct (rx_loop cur d1 rest) as [d2 ls]. cbn [snd existsb] in *. rewrite Hl, IH. reflexivity.
   - cbn [snd existsb]. rewrite Hl. reflexivity.
@@ -964,3 +968,13 @@ Example keepalive_nonvacuous :
   /\ enabled (d_now d) (d_ka d) = true
   /\ d_ka (fst (step cur d ESelect)) = TAt 20.
 Proof. vm_compute. repeat split. Qed.
+
+(* Record of finding C08-3 (repaired): negotiating with the configured number
+   instead of the value the OPEN advertised.  A configured hold time of 1 is
+   advertised as 0; against a peer advertising 30 the two advertised values
+   give 0 (no timers), the configured number gave 1. *)
+Lemma C08_raw_local_hold_refuted :
+  exists (local remote : N),
+    open_hold local = 0 /\ hold_in_force (open_hold local) remote = 0 /\ N.min local remote = 1
+    /\ open_hold 65536 = 0 /\ N.min 65536 remote = remote /\ remote <> 0.
+Proof. exists 1, 30. vm_compute. repeat split; discriminate. Qed.
